@@ -4,6 +4,7 @@ import RR.Proof.Hand
 import RR.Proof.Resampler
 import RR.Proof.DspFir
 import RR.Proof.Gated
+import RR.Proof.SinkSrc
 
 /-!
 # C08 — every block is a pure stream function: output independent of chunking
@@ -144,5 +145,24 @@ example : (drive1 (delayBlock 2) [7, 8, 9] ⟨2, 0⟩ 0 [] [(1, 1), (3, 2), (3, 
   decide
 example : (driveG nrzi (fun p => ([p % 2], [[]])) (0 : Nat) 0 [2, 0, 3]).map (fun r => (r.2.1, r.2.2.1)) =
     some (5, [[1], [0], [0], [0], [0]]) := by decide
+
+/-- Generator sources (SignalSourceFloat / SignalSourceComplex: a block without inputs that fills its write
+window from an iterator): for EVERY sequence of free-space values the samples emitted are exactly the first
+`Σ free` items of the iterator — nothing skipped, repeated or recomputed across calls. -/
+theorem c08_generator_source (G : GenSrc) (fs : List Nat) :
+    genDrive G fs G.init = genTake G fs.sum G.init := gen_drive G fs G.init
+
+/-- … hence of two schedules, one run's output is a prefix of the other's. -/
+theorem c08_generator_source_prefix (G : GenSrc) (fs gs : List Nat) (h : fs.sum ≤ gs.sum) :
+    (genDrive G fs G.init).2 <+: (genDrive G gs G.init).2 := gen_prefix G fs gs h
+
+/-- VectorSink: however the input `X` is cut into read windows, the storage ends as the first `max_size`
+samples of `X`. -/
+theorem c08_vector_sink (max : Nat) (ws : List (List Nat)) :
+    (sinkDrive max ws 0).2 = ws.flatten.take max := by
+  rw [sink_drive]; rfl
+
+example : (genDrive ⟨Nat, 0, fun n => (n + 1, 10 * n)⟩ [2, 0, 3] 0) = (5, [0, 10, 20, 30, 40]) := by decide
+example : (sinkDrive 4 [[1, 2], [], [3, 4, 5], [6]] 0) = (4, [1, 2, 3, 4]) := by decide
 
 end RR.Props.C08
